@@ -112,24 +112,26 @@ Section All.
   Definition extobj_body_ty (m : Z) (tv : val) : option ty :=
     if m =? 2 then Some xml_body_ty else option_map TPtr (lookup_expnodeid reg tv).
 
-  Fixpoint rwf (t : ty) (v : val) {struct v} : bool :=
+  (* sz = true: the full predicate; sz = false: without the condition on the size of the encoded extension object body
+     (rwf0: what every successfully decoded value satisfies, Proofs/CodecDecWf.v) *)
+  Fixpoint rwfg (sz : bool) (t : ty) (v : val) {struct v} : bool :=
     match t with
     | TSlice e =>
       match v with
       | VSlice None => true
       | VSlice (Some l) =>
         Nat.leb 1 (minsize e) && (zlen l <=? max_int32) &&
-        (fix go (l : list val) : bool := match l with [] => true | x :: r => rwf e x && go r end) l
+        (fix go (l : list val) : bool := match l with [] => true | x :: r => rwfg sz e x && go r end) l
       | _ => false
       end
-    | TPtr e => match v with VPtr (Some x) => ptr_elem_ok e && rwf e x | _ => false end
+    | TPtr e => match v with VPtr (Some x) => ptr_elem_ok e && rwfg sz e x | _ => false end
     | TStruct fs =>
       match v with
       | VStruct vs =>
         (fix go (fs : list ty) (vs : list val) {struct vs} : bool :=
            match fs, vs with
            | [], [] => true
-           | f :: fs', x :: vs' => rwf f x && go fs' vs'
+           | f :: fs', x :: vs' => rwfg sz f x && go fs' vs'
            | _, _ => false
            end) fs vs
       | _ => false
@@ -141,14 +143,14 @@ Section All.
       | VDiag m sym ns locale loctext info status inner =>
         byte_ok m && imp (bit m 0) (i_ok 4 sym) && imp (bit m 1) (i_ok 4 ns) && imp (bit m 3) (i_ok 4 locale) &&
         imp (bit m 2) (i_ok 4 loctext) && imp (bit m 4) (str_ok info) && imp (bit m 5) (u_ok 4 status) &&
-        imp (bit m 6) (match inner with Some i => rwf (TCustom CDiagInfo) i | None => false end)
+        imp (bit m 6) (match inner with Some i => rwfg sz (TCustom CDiagInfo) i | None => false end)
       | _ => false
       end
     | TCustom CDataValue =>
       match v with
       | VDataValue m value status st sp svt svp =>
         byte_ok m &&
-        imp (bit m 0) (match value with Some x => rwf (TCustom CVariant) x | None => false end) &&
+        imp (bit m 0) (match value with Some x => rwfg sz (TCustom CVariant) x | None => false end) &&
         imp (bit m 1) (u_ok 4 status) && imp (bit m 2) (time_ok st) && imp (bit m 4) (u_ok 2 sp) &&
         imp (bit m 3) (time_ok svt) && imp (bit m 5) (u_ok 2 svp)
       | _ => false
@@ -167,7 +169,7 @@ Section All.
                    | VSlice None => true
                    | VSlice (Some l) =>
                      (fix go (l : list val) : bool := match l with [] => true | x :: r => lv x && go r end) l
-                   | _ => rwf (variant_ty (m mod 64)) pv
+                   | _ => rwfg sz (variant_ty (m mod 64)) pv
                    end) p
               end)
       | _ => false
@@ -183,8 +185,9 @@ Section All.
               | Some bv =>
                 match extobj_body_ty m tv with
                 | Some bt =>
-                  rwf bt bv &&
-                  match encode reg bt bv with EOk bb => (0 <? blen bb) && (blen bb <? null32) | _ => false end
+                  rwfg sz bt bv &&
+                  (if sz then match encode reg bt bv with EOk bb => (0 <? blen bb) && (blen bb <? null32) | _ => false end
+                   else true)
                 | None => false
                 end
               end)
@@ -192,6 +195,9 @@ Section All.
       end
     | _ => gwf t v
     end.
+
+  Definition rwf : ty -> val -> bool := rwfg true.
+  Definition rwf0 : ty -> val -> bool := rwfg false.
 
   Fixpoint rnorm (t : ty) (v : val) {struct v} : val :=
     match t with
